@@ -664,3 +664,7 @@ var MethodNames = func() []string {
 func NewErrorResponse(status *int32, message *string) error {
 	return &common.ErrorResponse{Status: status, Message: message}
 }
+
+func newSegment(sg Segment) restli.ResourcePathSegment {
+	return restli.NewResourcePathSegment(sg.Name, sg.IsCollection)
+}
